@@ -70,6 +70,13 @@ Theorem tokens_granted_once : forall v ops, NoDup (map fst (grants_run v init op
 Proof. exact grants_once. Qed.
 Print Assumptions tokens_granted_once.
 
+(* one session per user: after any history a profile has at most one live token (so Close, which removes one
+   session of the user, removes every way in) *)
+Theorem at_most_one_live_token_per_profile : forall v ops u t1 t2,
+  live_own (fst (run v init ops)) t1 u = true -> live_own (fst (run v init ops)) t2 u = true -> t1 = t2.
+Proof. exact one_live_token. Qed.
+Print Assumptions at_most_one_live_token_per_profile.
+
 (* ISOLATION.  Reads through an instance of profile u return rows of u's store only ... *)
 Theorem get_returns_own_rows_only : forall v st i t c u h st' x,
   nth_error (insts st) i = Some (u, h) ->
